@@ -60,6 +60,8 @@ pub struct Prediction {
     pub any_unformatted: bool,
     pub any_unreadable: bool,
     pub walk_fault: bool,
+    /// targets on which an injected write failure (open for writing, write, rename) fired
+    pub write_faulted: Vec<String>,
     /// a directory that is part of the walk (not pruned as hidden) could not be opened / read:
     /// an I/O error occurred that check mode must report
     pub walk_fault_visible: bool,
@@ -150,6 +152,7 @@ pub fn predict(tree: &Tree, inv: &Inv, fired: &Fired, oracle: &mut Oracle) -> Pr
         any_unformatted: false,
         any_unreadable: false,
         walk_fault: !fired.walk_failed.is_empty(),
+        write_faulted: fired.write_failed.iter().cloned().collect(),
         walk_fault_visible: false,
         oracle_unavailable: false,
         unmodelled: None,
@@ -516,6 +519,22 @@ pub fn check(
                 "I14.3-exit-stdstream",
                 step,
                 format!("check mode exit status 0 after a failed write to stdout/stderr although an input differs or is unreadable (inputs: {})", summarise_inputs(pred)),
+            ));
+        }
+    }
+    // the same for the writing modes: a failed input (unreadable, or an injected write failure
+    // that left the target incomplete) must not end in exit 0 just because stdout/stderr broke
+    if pred.level == Level::Safety && write_mode && out.exit == Some(0) && out.signal.is_none() && !pred.walk_fault && pred.unmodelled.is_none() && !out.trace.iter().any(|e| e.sym == "crash") {
+        let write_failure_left_incomplete = pred.write_faulted.iter().any(|k| match (pred.files.get(k), after.get(k)) {
+            (Some(FileExpect::Torn { new }), Some(seen)) => !matches!(&seen.node, Node::File(b) if b.0 == *new),
+            _ => false,
+        });
+        if pred.any_unreadable || write_failure_left_incomplete {
+            v.push(viol(
+                &["C15"],
+                "I15.4-exit-stdstream",
+                step,
+                format!("a failure on one input was not reported: exit status 0 after a failed write to stdout/stderr (inputs: {})", summarise_inputs(pred)),
             ));
         }
     }
